@@ -215,6 +215,33 @@ def run_chunk(case: dict) -> dict:
     def bump(k: str, v: int = 1) -> None:
         counts[k] = counts.get(k, 0) + v
 
+    if case.get("large"):
+        # more traces than any IN-list / parameter chunking inside one root batch: 520-700
+        # traces of pairwise different small shapes under one root type, batch size 1000
+        n_tr = rng.choice([520, 610, 700])
+        base = 1_700_000_000 * 10**9
+        spans = []
+        for t in range(n_tr):
+            jid = f"L{t:04d}"
+            kids = [f"K{t % 40}", f"M{t // 40}"] + (["X"] if t % 3 == 0 else [])
+            spans.append({"job_name": "wf", "job_id": jid, "event_type": "R",
+                          "event_id": jid + ".0", "start_timestamp": base + t * 1000,
+                          "end_timestamp": base + t * 1000 + 900, "application_name": "app",
+                          "parent_event_id": None})
+            for k, ty in enumerate(kids):
+                spans.append({"job_name": "wf", "job_id": jid, "event_type": ty,
+                              "event_id": f"{jid}.{k + 1}",
+                              "start_timestamp": base + t * 1000 + 10 * (k + 1),
+                              "end_timestamp": base + t * 1000 + 10 * (k + 1) + 5,
+                              "application_name": "app", "parent_event_id": jid + ".0"})
+        rng.shuffle(spans)
+        v, d, info = judge(spans, 1000, 0, "sqlite:///:memory:", False)
+        n += 1
+        bump("large:" + (v if v.startswith("skip") else v.split(":")[0]))
+        bump("large_store_traces", n_tr)
+        if v.startswith("violated"):
+            fails.append({"symptom": v[9:], "detail": d, "stream": spans, "batch_size": 1000,
+                          "time_buffer": 0, "clean_first": False, "meta": {"large": True}})
     for idx in range(case["count"]):
         mode = rng.choice(["small-exhaustive", "random", "hostile-cleaned"])
         if mode == "hostile-cleaned":
@@ -283,7 +310,8 @@ def main(tier: str, seed: int) -> int:
              "trace-wise, interleaved, reversed or shuffled and evaluated with batch sizes "
              "{1,2,3,1000} and time buffers {0,1,5,10,20} min; every third store is also evaluated "
              "twice on one database file with late-arriving spans in between (the second "
-             "answer must describe the full store). distinct = distinct (store, "
+             "answer must describe the full store); two (thorough 8) stores of 520-700 traces of "
+             "pairwise different shapes evaluated with batch size 1000. distinct = distinct (store, "
              "batch size, buffer); all non-trivial")
     chk.assumptions = [
         "model: AHU canonical shape (type, sorted child shapes) per trace and root workflow name",
@@ -294,7 +322,8 @@ def main(tier: str, seed: int) -> int:
     P = core.NPROC
     n = 640 if tier == "quick" else 12000
     wd = os.path.join(core.work_dir(), "c09")
-    cases = [{"rng_seed": f"c09-{seed}-{i}", "count": n // P, "workdir": wd} for i in range(P)]
+    cases = [{"rng_seed": f"c09-{seed}-{i}", "count": n // P, "workdir": wd,
+              "large": i < (2 if tier == "quick" else 8)} for i in range(P)]
     results, notes = core.run_workers("checks.c09", "run_chunk", cases, case_wall=5000, timeout=6000)
     for nt in notes:
         chk.note_inconclusive(nt)
